@@ -359,7 +359,7 @@ pub mod lists {
 }
 
 /// `write_list`, `definitive_tactic` and friends of `lists.rs` with plain data.
-pub mod lists;
+pub mod list_write;
 
 /// Use trees, the comparators behind reordering and the grouping of reorderable items.
 ///
